@@ -131,9 +131,18 @@ impl Prop for C03 {
         out.push(viol(format!("{} of the document's visible characters differs at token character {first}: output …{:?}…, document …{:?}…; counts: {}", if sequence { "sequence" } else { "multiset" }, ctx(&got), ctx(&v_full), bal.join("; "))));
         out
     }
-    fn project(&self, _c: &Case, o: &Obs) -> String {
+    fn project(&self, c: &Case, o: &Obs) -> String {
+        // what the property speaks about: the non-whitespace stream as a sequence, or — for side-by-side tables,
+        // where lines of different cells interleave — as a multiset
         match o.text_lines() {
-            Some(ls) => ls.join("\n").chars().filter(|c| !c.is_whitespace()).collect(),
+            Some(ls) => {
+                let mut v: Vec<char> = ls.join("\n").chars().filter(|c| !c.is_whitespace()).collect();
+                let side_by_side = !c.cfg.raw && c.html.windows(6).any(|w| w.eq_ignore_ascii_case(b"<table"));
+                if side_by_side {
+                    v.sort();
+                }
+                v.into_iter().collect()
+            }
             None => o.class().into(),
         }
     }
